@@ -6,7 +6,12 @@ use super::CachePolicy;
 
 use parking_lot::Mutex;
 use rand::seq::IteratorRandom;
+#[cfg(not(excsn_fibre_verif))]
 use std::collections::HashMap;
+// Simulation build: victims are chosen by position in the map's iteration order, which with
+// std's per-thread RandomState keys would depend on what ran earlier on the simulator's thread.
+#[cfg(excsn_fibre_verif)]
+use fibre_verif_rt::hash::HashMap;
 use std::hash::Hash;
 
 /// An eviction policy that evicts entries randomly when the cache is full.
